@@ -2,7 +2,7 @@
 import engine
 import suite_rel
 
-SPEC_KEYS = ["id", "op", "K", "V", "keys", "wkeys", "funs", "out", "calls"]
+SPEC_KEYS = ["id", "op", "K", "V", "keys", "wkeys", "funs", "out", "calls", "nocalls"]
 C12_CLAUSES = ("group_keys", "agg_value", "apply_calls", "reduce_value", "keys_first")
 C13_CLAUSES = ("window_rows", "window_keys", "window_value")
 
